@@ -276,6 +276,10 @@ def replay_walk(bench, js, chk, through_elements):
 
 def run(chk):
     maxlaunch, through = BOUNDS[chk.tier]
+    # the stage before Launch: how a spectrum document or a resolved request becomes the carriers handed to the constructor
+    # (SpectrumDocument.tla: partition arithmetic, defaults, labels, which stage refuses what)
+    from harness import spectrumdoc_util
+    spectrumdoc_util.run_part(chk)
     # B1 and the emission for B2 in one exhaustive run: all clauses as invariants, every finished walk printed
     base = '\n'.join(ln for ln in cfg(3, emit=False).splitlines() if not ln.startswith('INVARIANT'))
     witnesses = ('WitnessMultiSplit', 'WitnessDropped', 'WitnessThreeBands')
@@ -417,7 +421,16 @@ def _mut_common_range_first_amp_only():
     rq.find_elements_common_range = find_elements_common_range
 
 
-MUTANTS = {'band_edges_exclusive': _mut_band_edges_exclusive, 'overlap_uses_left_width': _mut_overlap_uses_left_width,
+def _spectrumdoc_mutant(name):
+    def f():
+        from harness import spectrumdoc_util
+        spectrumdoc_util.MUTANTS[name]()
+    return f
+
+
+MUTANTS = {'spectrumdoc_count_without_plus_one': _spectrumdoc_mutant('count_without_plus_one'),
+           'spectrumdoc_comb_starts_at_fmin': _spectrumdoc_mutant('comb_starts_at_fmin'),
+           'band_edges_exclusive': _mut_band_edges_exclusive, 'overlap_uses_left_width': _mut_overlap_uses_left_width,
            'label_not_sorted': _mut_label_not_sorted, 'multiband_forgets_a_band': _mut_multiband_forgets_a_band,
            'baud_check_tolerant': _mut_baud_check_tolerant,
            'common_range_first_amp_only': _mut_common_range_first_amp_only}
